@@ -126,6 +126,8 @@ type syncInput struct {
 	Relation string    `json:"relation"`
 	RefspecForce bool  `json:"refspecForce"` // fetch: the refspec for remote-tracking refs carries '+'
 	FetchTags bool     `json:"fetchTags"`    // fetch: refs/tags/*:refs/tags/* is among the refspecs
+	ForcedDsts []string `json:"forcedDsts"`  // fetch with explicit per-branch refspecs: destinations whose refspec carries '+'
+	DevRelation string  `json:"devRelation"` // "", equal, ahead, unrelated, rewound: second branch `dev` on the remote
 	MaxPack uint64     `json:"maxPackfileSize"`
 	DenyNonFF bool     `json:"denyNonFastForwards"`
 	LocalBefore  *syncRepoState `json:"localBefore"`
@@ -213,9 +215,23 @@ func runSyncCase(seed int64, thorough bool) (*syncInput, Res) {
 				return Err("server-commit")
 			}
 		}
-		if r.Intn(3) == 0 {
+		hasTag := r.Intn(2) == 0
+		if hasTag {
 			h, _ := ref.GetHead(srs, "main")
 			ref.SaveTag(srs, "v1", h)
+		}
+		hasDev := r.Intn(2) == 0
+		// the second branch sorts before or after `main` (refs are processed in sorted order)
+		dev := []string{"dev", "zeta"}[r.Intn(2)]
+		if hasDev {
+			h, _ := ref.GetHead(srs, "main")
+			hc, err := objects.GetCommit(sdb, h)
+			if err != nil {
+				return Err("server-dev")
+			}
+			if err := ref.CommitHead(srs, dev, h, hc, nil); err != nil {
+				return Err("server-dev-ref")
+			}
 		}
 		// --- the local repository ----------------------------------------------------------------
 		dir := filepath.Join(root, "repo", ".wrgl")
@@ -237,8 +253,50 @@ func runSyncCase(seed int64, thorough bool) (*syncInput, Res) {
 		if out, err := cli(dir, "pull", "main", "origin", "refs/heads/main:refs/remotes/origin/main", "--set-upstream"); err != nil {
 			return Res{"res": "err", "kind": "setup-pull:" + out + ":" + err.Error()}
 		}
+		if hasTag && r.Intn(4) != 0 {
+			if out, err := cli(dir, "fetch", "origin", "refs/tags/*:refs/tags/*"); err != nil {
+				return Res{"res": "err", "kind": "setup-fetch-tags:" + out + ":" + err.Error()}
+			}
+		}
+		if hasDev {
+			if out, err := cli(dir, "fetch", "origin", "refs/heads/"+dev+":refs/remotes/origin/"+dev); err != nil {
+				return Res{"res": "err", "kind": "setup-fetch-dev:" + out + ":" + err.Error()}
+			}
+			in.DevRelation = []string{"equal", "ahead", "unrelated", "rewound"}[r.Intn(4)]
+			switch in.DevRelation {
+			case "ahead":
+				for i := 0; i < 1+r.Intn(2); i++ {
+					t := smallTable(r, fmt.Sprintf("dev%d", i))
+					if err := opCommit(t.CSV(0), t.PK, 1, dev)(sdb, srs); err != nil {
+						return Err("server-commit-dev")
+					}
+				}
+			case "unrelated":
+				srs.Delete("heads/" + dev)
+				t := smallTable(r, "devx")
+				if err := opCommit(t.CSV(0), t.PK, 1, dev)(sdb, srs); err != nil {
+					return Err("server-commit-dev")
+				}
+			case "rewound":
+				h, _ := ref.GetHead(srs, dev)
+				hc, _ := objects.GetCommit(sdb, h)
+				if hc != nil && len(hc.Parents) > 0 {
+					pc, err := objects.GetCommit(sdb, hc.Parents[0])
+					if err == nil {
+						ref.CommitHead(srs, dev, hc.Parents[0], pc, nil)
+					}
+				} else {
+					in.DevRelation = "equal"
+				}
+			}
+		}
 		// --- diverge -------------------------------------------------------------------------------
+		in.Action = []string{"fetch", "fetch", "push", "push", "pull", "merge"}[r.Intn(6)]
 		in.Relation = []string{"remote-ahead", "local-ahead", "diverged", "equal", "unrelated"}[r.Intn(5)]
+		if in.Action == "fetch" && r.Intn(2) == 0 {
+			// what matters to a fetch is how the remote branch moved relative to the remote-tracking ref
+			in.Relation = []string{"remote-ahead", "unrelated", "rewound"}[r.Intn(3)]
+		}
 		nRemote, nLocal := 0, 0
 		switch in.Relation {
 		case "remote-ahead":
@@ -251,6 +309,17 @@ func runSyncCase(seed int64, thorough bool) (*syncInput, Res) {
 			// the remote branch is replaced by an unrelated history
 			srs.Delete("heads/main")
 			nRemote = 1 + r.Intn(2)
+		case "rewound":
+			// the remote branch is reset to its parent (a non-fast-forward whose new value is an ancestor)
+			h, _ := ref.GetHead(srs, "main")
+			hc, _ := objects.GetCommit(sdb, h)
+			if hc != nil && len(hc.Parents) > 0 {
+				if pc, err := objects.GetCommit(sdb, hc.Parents[0]); err == nil {
+					ref.CommitHead(srs, "main", hc.Parents[0], pc, nil)
+				}
+			} else {
+				in.Relation = "equal"
+			}
 		}
 		for i := 0; i < nRemote; i++ {
 			t := smallTable(r, fmt.Sprintf("remote%d", i))
@@ -258,8 +327,8 @@ func runSyncCase(seed int64, thorough bool) (*syncInput, Res) {
 				return Err("server-commit2")
 			}
 		}
-		if r.Intn(4) == 0 {
-			// the remote moved its tag
+		if (hasTag && r.Intn(2) == 0) || (!hasTag && r.Intn(4) == 0) {
+			// the remote moved (or created) its tag
 			h, _ := ref.GetHead(srs, "main")
 			ref.SaveTag(srs, "v1", h)
 		}
@@ -271,7 +340,6 @@ func runSyncCase(seed int64, thorough bool) (*syncInput, Res) {
 			}
 		}
 		// --- the action under test ------------------------------------------------------------------
-		in.Action = []string{"fetch", "fetch", "push", "push", "pull", "merge"}[r.Intn(6)]
 		in.Force = r.Intn(3) == 0
 		if in.Action == "fetch" || in.Action == "pull" {
 			in.Depth = []int{0, 0, 1, 2}[r.Intn(4)]
@@ -289,6 +357,23 @@ func runSyncCase(seed int64, thorough bool) (*syncInput, Res) {
 				spec = "+" + spec
 			}
 			args = []string{"fetch", "origin", spec}
+			if hasDev && r.Intn(2) == 0 {
+				// explicit per-branch refspecs with independent force flags, in either order
+				in.RefspecForce = false
+				specs := []string{}
+				for _, b := range []string{"main", dev} {
+					s := "refs/heads/" + b + ":refs/remotes/origin/" + b
+					if r.Intn(2) == 0 {
+						s = "+" + s
+						in.ForcedDsts = append(in.ForcedDsts, "remotes/origin/"+b)
+					}
+					specs = append(specs, s)
+				}
+				if r.Intn(2) == 0 {
+					specs[0], specs[1] = specs[1], specs[0]
+				}
+				args = append([]string{"fetch", "origin"}, specs...)
+			}
 			if in.FetchTags {
 				args = append(args, "refs/tags/*:refs/tags/*")
 			}
